@@ -664,6 +664,120 @@ def check_variables(ctx, r):
         check_call(ctx, r, 'vars', site, src, code, 'm', True, edits, 2)
 
 
+# ------------------------------------------------------------------ Python-level objects with their __dict__ caches (DimodModel/HeapCache.lean)
+FWD_USED = ['add_linear', 'add_quadratic', 'set_linear', 'set_quadratic']
+
+
+def forwarding_names():
+    """the `@forwarding_method`s of BinaryQuadraticModel, read off the source"""
+    import ast
+    import inspect
+    tree = ast.parse(inspect.getsource(dimod.binary.binary_quadratic_model))
+    for c in tree.body:
+        if isinstance(c, ast.ClassDef) and c.name == 'BinaryQuadraticModel':
+            return [f.name for f in c.body if isinstance(f, ast.FunctionDef) and any(getattr(d, 'id', None) == 'forwarding_method' for d in f.decorator_list)]
+    return []
+
+
+def check_pycache(ctx, r, lines, expect, meta):
+    """a script of attribute reads (`.spin` / `.binary`), in-place edits through every route (direct, forwarded method, the cached
+    or new other-vartype object, its forwarded methods) and copies (copy.copy / copy.deepcopy / .copy()) on real objects.  Property
+    (no model): a copy's `__dict__` holds `data` only; an edit changes exactly the objects around the edited object's own data
+    (the object and its other-vartype object), never a copy or an original.  Correspondence: the same script on the heap model."""
+    from dimod.binary.vartypeview import VartypeView
+    vt = r.choice(['SPIN', 'BINARY'])
+    dt = r.choice(['float64', 'float32', 'object'])
+    src = f"m = dimod.BinaryQuadraticModel({{'a': 1.0, 'b': -2.0, 'c': 0.5}}, {{('a', 'b'): 4.0, ('b', 'c'): -1.0}}, 1.5, {vt!r}, dtype={'object' if dt == 'object' else repr(dt)})"
+    env = {}
+    exec(PRE + src, env)
+    objs = [env['m']]
+    init_names = '+'.join(sorted(k for k in env['m'].__dict__ if k in FWD_USED)) or '-'
+    def cy(o):
+        d = o.data
+        while isinstance(d, VartypeView):        # a view of a view (the `.spin` of a deep-copied `.binary` object) nests
+            d = d.data
+        return d
+    other = lambda o: o.binary if o.vartype is dimod.SPIN else o.spin
+    read = lambda o: (o.vartype.name, float(o.offset), sorted((repr(v), float(b)) for v, b in o.linear.items()),
+                      sorted((repr(sorted(map(repr, k))), float(b)) for k, b in o.quadratic.items()))
+
+    def known(o):
+        for i, x in enumerate(objs):
+            if x is o:
+                return i
+        objs.append(o)
+        return len(objs) - 1
+    ops, chs, script = [], [], [src]
+    counter = [100.5]
+    bad = None
+    for _ in range(r.randint(2, 9)):
+        x = r.randrange(len(objs))
+        kind = r.choice('ODWFVCK' if len(objs) < 7 else 'ODWFV')
+        name = r.choice(FWD_USED)
+        before = [read(o) for o in objs]
+        n_before = len(objs)
+        counter[0] += 1.0
+
+        def edit(o, fwd):
+            if not fwd:
+                o.offset += 1
+            elif name == 'add_linear':
+                o.add_linear('a', 1.0)
+            elif name == 'add_quadratic':
+                o.add_quadratic('a', 'c', 1.0)
+            elif name == 'set_linear':
+                o.set_linear('b', counter[0])
+            else:
+                o.set_quadratic('a', 'b', counter[0])
+        if kind == 'O':
+            known(other(objs[x])); op = f'O{x}'; script.append(f'other(objs[{x}])')
+        elif kind == 'D':
+            edit(objs[x], False); op = f'D{x}'; script.append(f'objs[{x}].offset += 1')
+        elif kind == 'W':
+            v = other(objs[x]); known(v); edit(v, False); op = f'W{x}'; script.append(f'other(objs[{x}]).offset += 1')
+        elif kind == 'F':
+            edit(objs[x], True); op = f'F{x}:{name}'; script.append(f'objs[{x}].{name}(...)')
+        elif kind == 'V':
+            v = other(objs[x]); known(v); edit(v, True); op = f'V{x}:{name}'; script.append(f'other(objs[{x}]).{name}(...)')
+        elif kind == 'C':
+            new = copy.copy(objs[x]) if r.random() < .5 else objs[x].copy(); objs.append(new); op = f'C{x}'; script.append(f'objs.append(copy.copy(objs[{x}]))')
+        else:
+            new = copy.deepcopy(objs[x]) if r.random() < .5 else objs[x].copy(deep=True); objs.append(new); op = f'K{x}'; script.append(f'objs.append(copy.deepcopy(objs[{x}]))')
+        ops.append(op)
+        after = [read(o) for o in objs[:n_before]]
+        ch = [i for i in range(n_before) if before[i][1:] != after[i][1:] or before[i][0] != after[i][0]]
+        chs.append(','.join(map(str, ch)) or '-')
+        ctx.tick('py cache op ' + kind)
+        # property: exactly the objects around the edited data change; copies start with `data` only and equal to the original
+        if kind in 'DWFV':
+            want = [i for i in range(n_before) if cy(objs[i]) is cy(objs[x])]
+            if ch != want and not bad:
+                bad = (f'after `{script[-1]}` the objects {ch} read differently, the objects around the edited model are {want}', 'edit through a cached route')
+        elif kind in 'CK':
+            if ch and not bad:
+                bad = (f'`{script[-1]}` changed the objects {ch}', 'copy changed an object')
+            keys = set(objs[-1].__dict__)
+            if keys != {'data'} and not bad:
+                bad = (f'`{script[-1]}`: the copy\'s __dict__ holds {sorted(keys)}', 'copy took over cached attributes')
+            if read(objs[-1]) != read(objs[x]) and not bad:
+                bad = (f'`{script[-1]}`: the copy reads {read(objs[-1])}, the original {read(objs[x])}', 'copy differs')
+    ctx.case(('pycache', vt, dt, tuple(ops)), nontrivial=any(o[0] in 'CK' for o in ops) and any(o[0] in 'DWFV' for o in ops))
+    site = 'BinaryQuadraticModel copy with filled caches'
+    if bad:
+        ctx.fail('property', site, bad[1], bad[0] + f' (script: {script})', repro=None, detail=dict(script=script))
+        return
+    datas = []
+    for o in objs:
+        if not any(cy(o) is d for d in datas):
+            datas.append(cy(o))
+    show = []
+    for o in objs:
+        oth = o.__dict__.get('_binary', o.__dict__.get('_spin'))
+        oi = next((str(i) for i, z in enumerate(objs) if z is oth), '?') if oth is not None else '-'
+        show.append(f"{next(i for i, d in enumerate(datas) if d is cy(o))},{int(isinstance(o.data, VartypeView))},{oi},{'+'.join(sorted(k for k in o.__dict__ if k in FWD_USED))}")
+    lines.append(f'pyc {init_names} ' + ';'.join(ops)); expect.append('ok ch=' + '/'.join(chs) + ' ' + '|'.join(show)); meta.append(site)
+
+
 def run(ctx):
     r = ctx.rng
     ctx.rule = ('random BQMs (3 dtypes) / QMs / CQMs / Variables / sample sets (0-6 rows, nested info with list, dict and array) x every '
@@ -739,6 +853,11 @@ def run(ctx):
                 expect.append((f'ok shared={shared} inputs_unchanged=1', None)); meta.append(site)
         if len([f for f in ctx.failures if f['kind'] == 'property']) >= 25:
             break
+    missing = [n for n in FWD_USED if n not in forwarding_names()]
+    if missing:
+        ctx.fail('correspondence', 'forwarding_method list', 'BinaryQuadraticModel', f'{missing} are no longer @forwarding_method: the cache model routes `fwd` do not describe them')
+    for _ in range(ctx.scale(300, 4000)):
+        check_pycache(ctx, r, lines, expect, meta)
     got = run_driver('storedriver', lines)
     ctx.corr_lines += len(lines)
     failed_sites = {f['site'] for f in ctx.failures if f['kind'] == 'property'}
